@@ -13,74 +13,89 @@ From Coq Require Import List ZArith NArith Bool Arith String.
 Import ListNotations.
 From DD Require Import Base.Sx Base.PyStr Base.Value Search.SearchModel.
 
-Definition step_is_idx (s : step) : bool := match s with SIdx _ => true | SKey _ => false end.
+Definition step_is_idx (s : step) : bool := match s with SIdx _ => true | SKey _ | SAttr _ => false end.
 
-(* obj[s] *)
-Definition child (obj : value) (s : step) : option value :=
+(* obj[s] / getattr(obj, n) *)
+Definition child (obj : xvalue) (s : step) : option xvalue :=
   match obj, s with
-  | VList xs, SIdx i | VTuple xs, SIdx i => nth_error xs i
-  | VSet xs, SIdx i | VFrozen xs, SIdx i => option_map VAtom (nth_error xs i)   (* i-th in iteration order *)
-  | VDict kvs, SKey k => option_map snd (find (fun kv => atom_eqb (fst kv) k) kvs)
+  | XList xs, SIdx i | XTuple xs, SIdx i => nth_error xs i
+  | XSet xs, SIdx i | XFrozen xs, SIdx i => option_map XAtom (nth_error xs i)   (* i-th in iteration order *)
+  | XDict kvs, SKey k => option_map snd (find (fun kv => atom_eqb (fst kv) k) kvs)
+  | XObj _ avs, SAttr n | XNamed _ avs, SAttr n => option_map snd (find (fun av => pystr_eqb (fst av) n) avs)
   | _, _ => None
   end.
 
 (* obj @ p *)
-Fixpoint get_at (obj : value) (p : path) : option value :=
+Fixpoint get_at (obj : xvalue) (p : path) : option xvalue :=
   match p with
   | [] => Some obj
   | s :: r => match child obj s with Some ch => get_at ch r | None => None end
   end.
 
 (* every location below (and including) obj, which itself sits at p *)
-Fixpoint locations (obj : value) (p : path) {struct obj} : list (path * value) :=
+Fixpoint locations (obj : xvalue) (p : path) {struct obj} : list (path * xvalue) :=
   (p, obj) ::
   match obj with
-  | VAtom _ => []
-  | VList xs | VTuple xs =>
-      (fix go (xs : list value) (i : nat) : list (path * value) :=
+  | XAtom _ | XOpaque _ => []
+  | XList xs | XTuple xs =>
+      (fix go (xs : list xvalue) (i : nat) : list (path * xvalue) :=
          match xs with
          | [] => []
          | x :: r => (locations x (p ++ [SIdx i]) ++ go r (S i))%list
          end) xs 0
-  | VDict kvs =>
-      (fix go (kvs : list (atom * value)) : list (path * value) :=
+  | XDict kvs =>
+      (fix go (kvs : list (atom * xvalue)) : list (path * xvalue) :=
          match kvs with
          | [] => []
          | kv :: r => (locations (snd kv) (p ++ [SKey (fst kv)]) ++ go r)%list
          end) kvs
-  | VSet xs | VFrozen xs =>
-      (fix go (xs : list atom) (i : nat) : list (path * value) :=
+  | XSet xs | XFrozen xs =>
+      (fix go (xs : list atom) (i : nat) : list (path * xvalue) :=
          match xs with
          | [] => []
-         | a :: r => ((p ++ [SIdx i])%list, VAtom a) :: go r (S i)
+         | a :: r => ((p ++ [SIdx i])%list, XAtom a) :: go r (S i)
          end) xs 0
+  | XObj _ avs | XNamed _ avs =>
+      (fix go (avs : list (pystr * xvalue)) : list (path * xvalue) :=
+         match avs with
+         | [] => []
+         | av :: r => (locations (snd av) (p ++ [SAttr (fst av)]) ++ go r)%list
+         end) avs
   end.
 
-(* no dictionary value (at any depth) has a type for which f holds *)
-Fixpoint dict_values_ok (f : ty -> bool) (obj : value) : bool :=
+(* no dictionary value / attribute value (at any depth) has a type for which f holds *)
+Fixpoint dict_values_ok (f : xty -> bool) (obj : xvalue) : bool :=
   match obj with
-  | VAtom _ | VSet _ | VFrozen _ => true
-  | VList xs | VTuple xs => forallb (dict_values_ok f) xs
-  | VDict kvs => forallb (fun kv => negb (f (type_of (snd kv))) && dict_values_ok f (snd kv)) kvs
+  | XAtom _ | XSet _ | XFrozen _ | XOpaque _ => true
+  | XList xs | XTuple xs => forallb (dict_values_ok f) xs
+  | XDict kvs => forallb (fun kv => negb (f (xtype_of (snd kv))) && dict_values_ok f (snd kv)) kvs
+  | XObj _ avs | XNamed _ avs => forallb (fun av => negb (f (xtype_of (snd av))) && dict_values_ok f (snd av)) avs
   end.
 
-(* no dictionary entry (at any depth) has a path for which f holds; obj sits at p *)
-Fixpoint dict_paths_ok (f : path -> bool) (obj : value) (p : path) {struct obj} : bool :=
+(* no dictionary entry / attribute (at any depth) has a path for which f holds; obj sits at p *)
+Fixpoint dict_paths_ok (f : path -> bool) (obj : xvalue) (p : path) {struct obj} : bool :=
   match obj with
-  | VAtom _ | VSet _ | VFrozen _ => true
-  | VList xs | VTuple xs =>
-      (fix go (xs : list value) (i : nat) : bool :=
+  | XAtom _ | XSet _ | XFrozen _ | XOpaque _ => true
+  | XList xs | XTuple xs =>
+      (fix go (xs : list xvalue) (i : nat) : bool :=
          match xs with
          | [] => true
          | x :: r => dict_paths_ok f x (p ++ [SIdx i]) && go r (S i)
          end) xs 0
-  | VDict kvs =>
-      (fix go (kvs : list (atom * value)) : bool :=
+  | XDict kvs =>
+      (fix go (kvs : list (atom * xvalue)) : bool :=
          match kvs with
          | [] => true
          | kv :: r => negb (f (p ++ [SKey (fst kv)])%list)
                       && dict_paths_ok f (snd kv) (p ++ [SKey (fst kv)]) && go r
          end) kvs
+  | XObj _ avs | XNamed _ avs =>
+      (fix go (avs : list (pystr * xvalue)) : bool :=
+         match avs with
+         | [] => true
+         | av :: r => negb (f (p ++ [SAttr (fst av)])%list)
+                      && dict_paths_ok f (snd av) (p ++ [SAttr (fst av)]) && go r
+         end) avs
   end.
 
 Definition atom_not_bytes (a : atom) : bool := match a with ABytes _ => false | _ => true end.
@@ -122,13 +137,13 @@ Section Spec.
      [vis false] = the location is reached by the search (it may be reported);
      [vis true]  = the location is entered by __search (its own comparer runs, its
                    children are visited): not a sequence item equal to the item. *)
-  Fixpoint vis (enter : bool) (pre : path) (obj : value) (rest : path) {struct rest} : bool :=
+  Fixpoint vis (enter : bool) (pre : path) (obj : xvalue) (rest : path) {struct rest} : bool :=
     negb (path_excl pre) &&
     match rest with
     | [] => true
     | s :: r =>
         match child obj s with
-        | Some ch => negb (step_is_idx s && ty_excl (type_of ch))
+        | Some ch => negb (step_is_idx s && ty_excl (xtype_of ch))
                      && negb (step_is_idx s && equals_item ch && (enter || negb (is_nil r)))
                      && vis enter (pre ++ [s]) ch r
         | None => false
@@ -136,8 +151,8 @@ Section Spec.
     end.
 
   (* as documented: "excluded paths and types never appear" *)
-  Fixpoint vis_doc (pre : path) (obj : value) (rest : path) {struct rest} : bool :=
-    negb (path_excl pre) && negb (ty_excl (type_of obj)) &&
+  Fixpoint vis_doc (pre : path) (obj : xvalue) (rest : path) {struct rest} : bool :=
+    negb (path_excl pre) && negb (ty_excl (xtype_of obj)) &&
     match rest with
     | [] => true
     | s :: r =>
@@ -173,14 +188,16 @@ Section Spec.
     | ABytes s => str_match true s
     | ABool _ | AInt _ | AHalf _ => num_match a
     end.
-  Definition leaf_match (v : value) : bool :=
-    match v with VAtom a => atom_match a | _ => false end.
+  (* what matches AT a location by itself: an atom by the comparer of its type; a named tuple
+     when it equals the (tuple) item (`obj == item` of __search_obj); no other container / instance *)
+  Definition leaf_match (v : xvalue) : bool :=
+    match v with XAtom a => atom_match a | XNamed _ _ => self_eq it v | _ => false end.
   (* "v matches the item": by its comparer, or - for an item of a list / tuple / set -
      by equality with the item (the only way a container is ever matched: K16h) *)
-  Definition match_at (seq_item : bool) (v : value) : bool :=
+  Definition match_at (seq_item : bool) (v : xvalue) : bool :=
     leaf_match v || (seq_item && equals_item v).
   (* documented reading: the comparer, or equality with the item, wherever the value sits *)
-  Definition item_match (v : value) : bool := leaf_match v || equals_item v.
+  Definition item_match (v : xvalue) : bool := leaf_match v || equals_item v.
 
   (* "the path text contains the item" *)
   Definition text_match (txt : pystr) : bool :=
@@ -193,11 +210,11 @@ Section Spec.
      custom object *)
   Definition obj_searched : bool :=
     match it with EAtom ANone | EVal _ => true | _ => false end.
-  Definition attrs_of (v : value) : list pystr :=
+  Definition attrs_of (v : xvalue) : list pystr :=
     if obj_searched then
       match v with
-      | VAtom (AStr _) => str_attrs
-      | VAtom (ABytes _) => bytes_attrs
+      | XAtom (AStr _) => str_attrs
+      | XAtom (ABytes _) => bytes_attrs
       | _ => []
       end
     else [].
@@ -206,23 +223,23 @@ Section Spec.
   (* ---- the specifications as lists ---- *)
 
   (* matched_values, with exclusion as implemented *)
-  Definition matches_spec (obj : value) : list (path * value) :=
+  Definition matches_spec (obj : xvalue) : list (path * xvalue) :=
     if item_excl then []
     else filter (fun pv => vis false [] obj (fst pv) && match_at (last_is_idx (fst pv)) (snd pv))
                 (locations obj []).
 
   (* matched_values, with exclusion as documented *)
-  Definition matches_spec_doc (obj : value) : list (path * value) :=
+  Definition matches_spec_doc (obj : xvalue) : list (path * xvalue) :=
     filter (fun pv => vis_doc [] obj (fst pv) && item_match (snd pv)) (locations obj []).
 
-  (* parent of a dictionary-entry location *)
+  (* parent of a dictionary-entry / attribute location *)
   Definition entry_parent (q : path) : option path :=
-    match rev q with SKey _ :: rp => Some (rev rp) | _ => None end.
+    match rev q with SKey _ :: rp | SAttr _ :: rp => Some (rev rp) | _ => None end.
 
   (* matched_paths as implemented: dictionary entries of visible dictionaries
      that are entered by the search and whose path text matches (the entry's own path
      is not tested for exclusion: finding K16b) *)
-  Definition paths_spec (obj : value) : list (path * value) :=
+  Definition paths_spec (obj : xvalue) : list (path * xvalue) :=
     if item_excl then []
     else filter (fun pv => match entry_parent (fst pv) with
                            | Some par => vis true [] obj par && path_match (fst pv)
@@ -230,17 +247,23 @@ Section Spec.
                            end) (locations obj []).
 
   (* matched_paths as documented *)
-  Definition paths_spec_doc (obj : value) : list (path * value) :=
+  Definition paths_spec_doc (obj : xvalue) : list (path * xvalue) :=
     filter (fun pv => match entry_parent (fst pv) with
                       | Some _ => vis_doc [] obj (fst pv) && path_match (fst pv)
                       | None => false
                       end) (locations obj []).
 
   (* guards under which the two readings of exclusion coincide *)
-  Definition k16_guard (obj : value) : bool :=
-    negb (ty_excl (type_of obj)) && dict_values_ok ty_excl obj.
-  Definition k16b_guard (obj : value) : bool :=
+  Definition k16_guard (obj : xvalue) : bool :=
+    negb (ty_excl (xtype_of obj)) && dict_values_ok ty_excl obj.
+  Definition k16b_guard (obj : xvalue) : bool :=
     dict_paths_ok path_excl obj [].
   (* the item is an atom (None, number, str, bytes) or a compiled pattern: no container item *)
   Definition atom_item : bool := match it with EVal _ => false | _ => true end.
+
+  (* `unprocessed`: the objects whose attributes cannot be read, where the search enters them *)
+  Definition is_opaque (v : xvalue) : bool := match v with XOpaque _ => true | _ => false end.
+  Definition unprocessed_spec (obj : xvalue) : list path :=
+    if item_excl then []
+    else map fst (filter (fun pv => vis true [] obj (fst pv) && is_opaque (snd pv)) (locations obj [])).
 End Spec.
